@@ -18,6 +18,8 @@ two (replayed on the real `Process.Packet` by the `dkgrun` engine), `c07_tampere
 of the pipeline does with the resulting group.
 -/
 import DrandProofs.C07Net
+import DrandProofs.C07Chain
+import DrandProofs.C07Repaired
 import Drand.Beacon.Transition
 import DrandProofs.C17
 import DrandProofs.Lemmas.Pedersen
